@@ -327,3 +327,46 @@ def check_isinstance_types(run, rid, prog, funcs, what):
                                    % (f.short, norm(c), ", ".join(b for _, b in bad), ", ".join(after) or "the last kind"),
                            loc=f.loc(c), sample={"function": f.short, "test": norm(c)})
     return n
+
+
+# ----------------------------------------------------------------------
+# options are handed on: a method that receives an option and delegates to a method of the same object
+# which has an option of the same name must pass it (otherwise the callee silently uses its default)
+def check_option_forwarding(run, rid, prog, cls, names=None, what=""):
+    n = 0
+    methods = {}
+    for b in reversed([x for x in prog.mro(cls) if x is not None]):
+        for nme, fn in b.methods.items():
+            methods[nme] = fn
+    from .loader import demangle
+    for fn in cls.methods.values():
+        own = [a.arg for a in fn.node.args.args[1:]] + [a.arg for a in fn.node.args.kwonlyargs]
+        for c in walk_no_nested(fn.node):
+            if not (isinstance(c, ast.Call) and isinstance(c.func, ast.Attribute) and isinstance(c.func.value, ast.Name)
+                    and c.func.value.id == "self"):
+                continue
+            tgt = methods.get(demangle(fn, c.func.attr))
+            if tgt is None or tgt is fn:
+                continue
+            tparams = [a.arg for a in tgt.node.args.args[1:]]
+            tkw = [a.arg for a in tgt.node.args.kwonlyargs]
+            shared = [p for p in own if (p in tparams or p in tkw) and (names is None or p in names)]
+            if not shared:
+                continue
+            if any(isinstance(a, ast.Starred) for a in c.args) or any(k.arg is None for k in c.keywords):
+                continue
+            for p in shared:
+                passed = None
+                for k in c.keywords:
+                    if k.arg == p:
+                        passed = k.value
+                if passed is None and p in tparams and tparams.index(p) < len(c.args):
+                    passed = c.args[tparams.index(p)]
+                n += 1
+                prog.consulted.add(fn.relpath)
+                run.obligation(rid, fn.short, passed is not None, key="forwards:%s->%s" % (p, tgt.name),
+                               message="%s receives %s but calls %s without it: the callee falls back to its default "
+                                       "whatever the caller asked for (%s)" % (fn.short, p, tgt.short, what),
+                               loc=fn.loc(c), sample={"caller": fn.short, "callee": tgt.short, "option": p,
+                                                      "passed": norm(passed) if passed is not None else None})
+    return n
